@@ -64,6 +64,12 @@ def _canon_arr(a, kind):
         if m:
             out.append("M")
         elif kind == "t":
+            if not isinstance(d, (np.datetime64, np.timedelta64)):
+                # a timezone-aware time column is handed over as pandas Timestamps: the instant, in UTC
+                import pandas as pd
+                ts = pd.Timestamp(d)
+                d = np.datetime64("NaT") if ts is pd.NaT else np.datetime64(
+                    (ts.tz_convert("UTC").tz_localize(None) if ts.tzinfo is not None else ts).value, "ns")
             if np.isnat(d):
                 out.append(None)
             else:
